@@ -330,6 +330,33 @@ def StrictSubclass(cls, base_cls):
     )
 
 
+def _each_below_some(types1, types2):
+    """Whether each of types1 is at least as specific as one of types2."""
+    return all(
+        any(typeorder(t1, t2) in (Order.LESS, Order.SAME) for t2 in types2)
+        for t1 in types1
+    )
+
+
+def _each_above_some(types1, types2):
+    """Whether each of types1 is at least as general as one of types2."""
+    return all(
+        any(typeorder(t2, t1) in (Order.LESS, Order.SAME) for t2 in types2)
+        for t1 in types1
+    )
+
+
+def _order_from(less, more):
+    if less and more:
+        return Order.SAME
+    elif less:
+        return Order.LESS
+    elif more:
+        return Order.MORE
+    else:
+        return Order.NONE
+
+
 def _member_check(t):
     """Code that checks a value against a member of a union or intersection."""
     from .dependent import (
@@ -363,6 +390,14 @@ class Union:
     def __type_order__(self, other):
         if other is Union:
             return Order.LESS
+        other_handler = getattr(other, "_handler", None)
+        if isinstance(other_handler, type(self)):
+            # Two unions are ordered like their sets of alternatives, so
+            # that the answer is the mirror image of what the other one says
+            return _order_from(
+                less=_each_below_some(self.types, other_handler.types),
+                more=_each_below_some(other_handler.types, self.types),
+            )
         classes = self.types
         compare = [
             x for t in classes if (x := typeorder(t, other)) is not Order.NONE
@@ -412,6 +447,14 @@ class Intersection:
     def __type_order__(self, other):
         if other is Intersection:
             return Order.LESS
+        other_handler = getattr(other, "_handler", None)
+        if isinstance(other_handler, type(self)):
+            # Two intersections: the one that demands at least what the
+            # other one demands is the more specific one
+            return _order_from(
+                less=_each_above_some(other_handler.types, self.types),
+                more=_each_above_some(self.types, other_handler.types),
+            )
         classes = self.types
         compare = [
             x for t in classes if (x := typeorder(t, other)) is not Order.NONE
